@@ -8,6 +8,22 @@ contract("artap.individual:Individual.__eq__",
          locals={"diff": "Real"},
          requires=["len(self.vector) == len(other.vector)", "len(self.vector) >= 1"],
          ensures=["result == vec_close(self, other)"],
-         loops={1: ["_k == 0 or (diff < 1e-10) == forall(lambda i: abs(self.vector[i] - other.vector[i]) < 1e-10, 0, _k)",
-                    "_k == 0 implies diff == 1" if False else "implies(_k == 0, diff == 1)"]},
+         loops={1: ["implies(_k == 0, diff == 1)",
+                    "implies(_k > 0, diff < 1e-10 and forall(lambda i: abs(self.vector[i] - other.vector[i]) < 1e-10, 0, _k))"]},
          pure=True, returns="vec_close(self, other)")
+
+_AB = [("a", "Ref[Individual]"), ("b", "Ref[Individual]")]
+lemma("eq_symmetric", props=["C20"], vars=_AB,
+      hyps=["len(a.vector) == len(b.vector)"], goal="vec_close(a, b) == vec_close(b, a)")
+lemma("eq_holds_for_identical_vectors", props=["C20"], vars=_AB,
+      hyps=["seq_eq(a.vector, b.vector)"], goal="vec_close(a, b)")
+lemma("eq_detects_any_coordinate", props=["C20"], vars=_AB + [("k", "Int")],
+      hyps=["len(a.vector) == len(b.vector)", "0 <= k and k < len(a.vector)", "abs(a.vector[k] - b.vector[k]) >= 1e-10"],
+      goal="not vec_close(a, b)")
+
+# __hash__ = hash(tuple(self.vector)): tuple(...) is the value sequence, hash an uninterpreted function of it
+define("hash_spec", ["x"], "hash(tuple(x.vector))")
+contract("artap.individual:Individual.__hash__", props=["C20", "C03"],
+         types={"result": "Int"}, ensures=["result == hash_spec(self)"], pure=True, returns="hash_spec(self)")
+lemma("hash_congruent", props=["C20", "C03"], vars=_AB,
+      hyps=["seq_eq(a.vector, b.vector)"], goal="hash_spec(a) == hash_spec(b)")
